@@ -16,6 +16,7 @@ package base
 
 import (
 	"sync"
+	"sync/atomic"
 
 	"github.com/pkg/errors"
 
@@ -35,6 +36,8 @@ type SentinelEntry struct {
 	sc *SlotChain
 
 	exitCtl sync.Once
+	// exited is set by the first Exit: from then on the context belongs to the pool again.
+	exited uint32
 }
 
 func NewSentinelEntry(ctx *EntryContext, rw *ResourceWrapper, sc *SlotChain) *SentinelEntry {
@@ -51,13 +54,15 @@ func (e *SentinelEntry) WhenExit(exitHandler ExitHandler) {
 }
 
 func (e *SentinelEntry) SetError(err error) {
-	if e.ctx != nil {
+	// Ignore late calls: after Exit the context may already have been recycled for another entry.
+	if e.ctx != nil && atomic.LoadUint32(&e.exited) == 0 {
 		e.ctx.SetError(err)
 	}
 }
 
 func (e *SentinelEntry) SetPair(key, val interface{}) {
-	if e.ctx != nil {
+	// Ignore late calls: after Exit the context may already have been recycled for another entry.
+	if e.ctx != nil && atomic.LoadUint32(&e.exited) == 0 {
 		e.ctx.SetPair(key, val)
 	}
 }
@@ -93,6 +98,7 @@ func (e *SentinelEntry) Exit(exitOps ...ExitOption) {
 		return
 	}
 	e.exitCtl.Do(func() {
+		atomic.StoreUint32(&e.exited, 1)
 		// Record the error only on the first Exit: afterwards the context may already
 		// have been recycled for another entry.
 		if options.err != nil {
